@@ -6,6 +6,10 @@ import ZenonVerif.Model.Pow
 import ZenonVerif.Model.Proto
 import ZenonVerif.Model.Consensus
 import ZenonVerif.Model.Rewards
+import ZenonVerif.Model.RewardEpoch
+import ZenonVerif.Model.EpochCursor
+import ZenonVerif.Model.Sync
+import ZenonVerif.Model.Verify
 import ZenonVerif.Props.C18
 import ZenonVerif.Props.C14
 /-
@@ -142,8 +146,6 @@ theorem fromNumber_beyond_translation_refines_model (lastHeight number : BitVec 
   unfold Translated.fromNumber_beyond
   simp only [BitVec.lt_def, decide_eq_true_eq]
 
-theorem tdiv_nat (n d : Nat) : Int.tdiv (n : Int) (d : Int) = ((n / d : Nat) : Int) := (Int.ofNat_tdiv n d).symm
-
 theorem getTargetByDifficulty_translation_refines_model (d : BitVec 64) :
     Translated.getTargetByDifficulty d = .ok (Pow.targetBytes d.toNat) := by
   unfold Translated.getTargetByDifficulty Pow.targetBytes Pow.target
@@ -205,9 +207,6 @@ theorem MaxInt64_translation_refines_model (x y : BitVec 64) :
     (Translated.MaxInt64 x y).toInt = max x.toInt y.toInt := by
   unfold Translated.MaxInt64; simp only [decide_eq_true_eq]; split <;> omega
 
-theorem toInt_sub_wrap (a b : BitVec 64) : (a - b).toInt = Rewards.wrap64 (a.toInt - b.toInt) := by
-  rw [BitVec.toInt_sub, Int.bmod_def]; unfold Rewards.wrap64; simp only [two63, two64]; split <;> omega
-
 theorem getWeightedStake_translation_refines_model (revoke start : BitVec 64) (w : Int) (s e : BitVec 64) :
     Translated.getWeightedStake revoke start w s e
       = Rewards.weightedStake start.toInt revoke.toInt w s.toInt e.toInt := by
@@ -219,17 +218,6 @@ theorem getWeightedStake_translation_refines_model (revoke start : BitVec 64) (w
   (repeat' split) <;> simp_all <;> omega
 
 theorem momentumsPage_eq_accountBlocksPage : Translated.momentumsPage = Translated.accountBlocksPage := rfl
-
-theorem ToTime_offsets_translation_pinned (iv tick : BitVec 64) :
-    Translated.ToTime_startOffset iv tick = iv * tick ∧ Translated.ToTime_endOffset iv tick = iv * (tick + 1#64) := ⟨rfl, rfl⟩
-
-theorem rewardHistoryFirstEpoch_translation_pinned (last : BitVec 64) (i c : BitVec 32) :
-    Translated.rewardHistoryFirstEpoch last i c = last - BitVec.setWidth 64 i * BitVec.setWidth 64 c := rfl
-
-theorem toInt_mul_wrap (a b : BitVec 64) : (a * b).toInt = Rewards.mul64 a.toInt b.toInt := by
-  rw [BitVec.toInt_mul, Int.bmod_def]; unfold Rewards.mul64 Rewards.wrap64; simp only [two63, two64]
-  generalize a.toInt * b.toInt = p
-  split <;> omega
 
 theorem getWeightedSentinel_translation_refines_model (reg revoke s e : BitVec 64) :
     Translated.getWeightedSentinel reg revoke s e
@@ -294,7 +282,8 @@ theorem DifficultyToPlasma_translated_le (d : BitVec 64) :
     · rw [if_neg h1]; simp only [Gen.MaxDifficultyForAccountBlock, Gen.MaxPoWPlasmaForAccountBlock, Gen.PoWDifficultyPerPlasma] at h1 ⊢
       omega
 
-/-- the page request of `GetAccountBlocksByPage` / `GetMomentumsByPage` at the machine level (shape of `Rpc.pageRequest`) -/
+/-- the page request of `GetAccountBlocksByPage` / `GetMomentumsByPage` at the machine level (shape of `Rpc.pageRequest`);
+    intermediate step of `accountBlocksPage_translation_refines_model` -/
 def pageSpec (H : BitVec 64) (i c : BitVec 32) : Res (BitVec 64 × BitVec 64) :=
   let start := H - BitVec.setWidth 64 (i + 1#32) * BitVec.setWidth 64 c + 1#64
   let count := BitVec.setWidth 64 c
@@ -303,32 +292,537 @@ def pageSpec (H : BitVec 64) (i c : BitVec 32) : Res (BitVec 64 × BitVec 64) :=
   let count' := if tooMuch.toInt > 0 then count - tooMuch else count
   if count'.toInt < 1 then .exit 0 else .ok (start', count')
 
-theorem accountBlocksPage_translation_pinned_partial (H : BitVec 64) (i c : BitVec 32) :
-    Translated.accountBlocksPage H i c = pageSpec H i c := by
-  unfold Translated.accountBlocksPage pageSpec
-  have h0 : (0#64).toInt = 0 := by decide
-  have h1 : (1#64).toInt = 1 := by decide
-  simp only [h0, h1, decide_eq_true_eq]
-  (repeat' split) <;> simp_all
+/-- embedding of the model's answer (`none` = the empty page is answered directly = first `return` of the fragment) -/
+def pageEmb : Option (Nat × Nat) → Res (BitVec 64 × BitVec 64)
+  | none => .exit 0
+  | some (s, n) => .ok (BitVec.ofNat 64 s, BitVec.ofNat 64 n)
 
-theorem getWeightedStakeAmount_translation_pinned_partial (amount : Int) (t : BitVec 64) :
-    Translated.getWeightedStakeAmount amount t
-      = .ok (((9#64 + BitVec.sdiv t (BitVec.ofNat 64 Gen.StakeTimeUnitSec.toNat)).toInt * amount) / 10) := by
-  unfold Translated.getWeightedStakeAmount
-  simp [Translated.vm_constants_StakeTimeUnitSec_init, bigOfI64, bigDiv, Gen.StakeTimeUnitSec]
+theorem accountBlocksPage_translation_refines_model (H : BitVec 64) (i c : BitVec 32)
+    (hH : H.toNat < two63) (hc : c.toNat ≤ Gen.RpcMaxPageSize) :
+    Translated.accountBlocksPage H i c = pageEmb (Rpc.pageRequest H.toNat i.toNat c.toNat) := by
+  have hpin : Translated.accountBlocksPage H i c = pageSpec H i c := by
+    unfold Translated.accountBlocksPage pageSpec
+    have h0 : (0#64).toInt = 0 := by decide
+    have h1 : (1#64).toInt = 1 := by decide
+    simp only [h0, h1, decide_eq_true_eq]
+    (repeat' split) <;> simp_all
+  rw [hpin]
+  unfold pageSpec Rpc.pageRequest pageEmb
+  simp only [two63, two32, Gen.RpcMaxPageSize] at *
+  have hq : (i.toNat + 1) % 4294967296 < 4294967296 := Nat.mod_lt _ (by omega)
+  have hm : (i.toNat + 1) % 4294967296 * c.toNat ≤ 4294967296 * 1024 := Nat.mul_le_mul (by omega) hc
+  generalize hP : BitVec.setWidth 64 (i + 1#32) * BitVec.setWidth 64 c = P
+  have hPn : P.toNat = (i.toNat + 1) % 4294967296 * c.toNat := by
+    subst hP
+    simp only [BitVec.toNat_mul, BitVec.toNat_setWidth, BitVec.toNat_add, BitVec.toNat_ofNat]
+    have e1 : (i.toNat + 1 % 2 ^ 32) % 2 ^ 32 = (i.toNat + 1) % 4294967296 := by omega
+    have e2 : (i.toNat + 1) % 4294967296 % 2 ^ 64 = (i.toNat + 1) % 4294967296 := by omega
+    have e3 : c.toNat % 2 ^ 64 = c.toNat := by omega
+    rw [e1, e2, e3]; omega
+  generalize hC : BitVec.setWidth 64 c = C
+  have hCn : C.toNat = c.toNat := by subst hC; simp [BitVec.toNat_setWidth]; omega
+  have hcast : (((i.toNat + 1) % 4294967296 : Nat) : Int) * (c.toNat : Int) = ((((i.toNat + 1) % 4294967296) * c.toNat : Nat) : Int) := by
+    simp
+  simp only [hcast]
+  rw [← hPn]
+  clear hcast hC hP
+  have hPb : P.toNat ≤ 4294967296 * 1024 := by omega
+  clear hPn hm hq
+  have hTn : (1#64 - (H - P + 1#64)).toNat = (2 ^ 64 + P.toNat - H.toNat) % 2 ^ 64 := by bv_omega
+  have hT : (1#64 - (H - P + 1#64)).toInt = (P.toNat : Int) - (H.toNat : Int) := by
+    rw [toInt_eq, hTn]; split <;> omega
+  have hS : (H - P + 1#64).toNat = H.toNat - P.toNat + 1 ∨ P.toNat > H.toNat := by bv_omega
+  rw [hT]
+  by_cases h : (P.toNat : Int) - (H.toNat : Int) > 0
+  · have h' : 1 - ((H.toNat : Int) - (P.toNat : Int) + 1) > 0 := by omega
+    simp only [h, h', if_true]
+    have hKn : (C - (1#64 - (H - P + 1#64))).toNat = (2 ^ 64 + c.toNat - (P.toNat - H.toNat)) % 2 ^ 64 := by bv_omega
+    have hK : (C - (1#64 - (H - P + 1#64))).toInt = (c.toNat : Int) - ((P.toNat : Int) - (H.toNat : Int)) := by
+      rw [toInt_eq, hKn]; split <;> omega
+    rw [hK]
+    by_cases h2 : (c.toNat : Int) - ((P.toNat : Int) - (H.toNat : Int)) < 1
+    · have h2' : (c.toNat : Int) - (1 - ((H.toNat : Int) - (P.toNat : Int) + 1)) < 1 := by omega
+      simp only [h2, h2', if_true]
+    · have h2' : ¬ (c.toNat : Int) - (1 - ((H.toNat : Int) - (P.toNat : Int) + 1)) < 1 := by omega
+      simp only [h2, h2', if_false]
+      congr 2
+      apply BitVec.eq_of_toNat_eq; simp only [BitVec.toNat_ofNat]; omega
+  · have h' : ¬ 1 - ((H.toNat : Int) - (P.toNat : Int) + 1) > 0 := by omega
+    simp only [h, h', if_false]
+    have hK : C.toInt = (c.toNat : Int) := by rw [toInt_eq]; split <;> omega
+    rw [hK]
+    by_cases h2 : (c.toNat : Int) < 1
+    · simp only [h2, if_true]
+    · simp only [h2, if_false]
+      congr 2
+      · apply BitVec.eq_of_toNat_eq; simp only [BitVec.toNat_ofNat]; bv_omega
+      · apply BitVec.eq_of_toNat_eq; simp only [BitVec.toNat_ofNat]; bv_omega
+
+example : ∃ (H : BitVec 64) (c : BitVec 32), H.toNat < two63 ∧ c.toNat ≤ Gen.RpcMaxPageSize ∧
+    Translated.accountBlocksPage H 2#32 c = .ok (71#64, 10#64) := ⟨100#64, 10#32, by decide⟩
+
+/-- the page-size guard that precedes the fragment (`pageSize > RpcMaxPageSize` → error) is needed for the equality with
+    the unbounded-integer model: for huge sizes the int64 product wraps and the code hands on a positive range where the
+    model answers the empty page -/
+theorem accountBlocksPage_needs_page_size_guard :
+    Translated.accountBlocksPage 0#64 4294967294#32 4294967295#32
+      ≠ pageEmb (Rpc.pageRequest 0 4294967294 4294967295) := by decide
+
+theorem momentumsPage_translation_refines_model (H : BitVec 64) (i c : BitVec 32)
+    (hH : H.toNat < two63) (hc : c.toNat ≤ Gen.RpcMaxPageSize) :
+    Translated.momentumsPage H i c = pageEmb (Rpc.pageRequest H.toNat i.toNat c.toNat) := by
+  rw [momentumsPage_eq_accountBlocksPage]; exact accountBlocksPage_translation_refines_model H i c hH hc
+
+/-- `getWeightedStakeAmount` = the hand model `RewardEpoch.stakeWeightedAmount` at the live `StakeTimeUnitSec`
+    (int64 quotient and sum with wrap-around, big.Int product, `Div` by 10) -/
+theorem getWeightedStakeAmount_translation_refines_model (amount : Nat) (t : BitVec 64) :
+    Translated.getWeightedStakeAmount (amount : Int) t
+      = (match RewardEpoch.stakeWeightedAmount Gen.StakeTimeUnitSec amount t.toInt with
+         | none => .panic | some v => .ok v) := by
+  unfold Translated.getWeightedStakeAmount RewardEpoch.stakeWeightedAmount Rewards.div64
+  have hU : (Translated.vm_constants_StakeTimeUnitSec_init).toInt = Gen.StakeTimeUnitSec := by decide
+  have h9 : (9#64).toInt = 9 := by decide
+  simp only [bigOfI64, bigDiv, toInt_add_wrap, toInt_sdiv_wrap, hU, h9]
+  simp [Translated.vm_constants_StakeTimeUnitSec_init, Gen.StakeTimeUnitSec]
   rfl
 
-/-- `TickMultiplier`, after the four instants are read: the multiplier is reported only when the bigger duration is a
-    whole multiple of the smaller one; a zero callee duration panics (integer divide by zero) -/
-theorem TickMultiplier_tail_translation_refines_spec (cE cS bE bS : BitVec 64) :
+/-- the two `interval * time.Duration(tick)` products of `ticker.ToTime` added to the start instant = `Ticker.toTime` -/
+theorem ToTime_offsets_translation_refines_model (iv tick : BitVec 64) (start : Int) (h1 : tick.toNat + 1 < two64) :
+    (start + (Translated.ToTime_startOffset iv tick).toInt, start + (Translated.ToTime_endOffset iv tick).toInt)
+      = Consensus.Ticker.toTime ⟨start, iv.toInt⟩ tick.toNat := by
+  unfold Translated.ToTime_startOffset Translated.ToTime_endOffset Consensus.Ticker.toTime
+  have e : (tick + 1#64).toNat = tick.toNat + 1 := by simp only [two64] at h1; bv_omega
+  simp only [toInt_mul_wrap, consensus_wrap64_eq, toInt64_toNat, Rewards.mul64, ← e]
+
+theorem rewardHistoryFirstEpoch_translation_refines_model (last : BitVec 64) (i c : BitVec 32) :
+    (Translated.rewardHistoryFirstEpoch last i c).toInt = Rewards.rewardHistoryFirstEpoch last.toInt i.toNat c.toNat := by
+  unfold Translated.rewardHistoryFirstEpoch Rewards.rewardHistoryFirstEpoch
+  simp only [toInt_sub_wrap, toInt_mul_wrap, toInt_zext32]
+
+/-- `TickMultiplier`, after the four instants are read = `Consensus.tickMultiplier` on the two wrapped differences:
+    the multiplier is reported only when the bigger duration is a whole multiple of the smaller one; a zero callee
+    duration panics (integer divide by zero) -/
+theorem TickMultiplier_tail_translation_refines_model (cE cS bE bS : BitVec 64) :
     Translated.TickMultiplier_tail cE cS bE bS =
-      (let c := cE - cS; let b := bE - bS
-       if c.toInt > b.toInt then .ok (0#64, some "errorf")
-       else if c = 0#64 then .panic
-       else if BitVec.srem b c ≠ 0#64 then .ok (0#64, some "errorf")
-       else .ok (BitVec.sdiv b c, none)) := by
-  unfold Translated.TickMultiplier_tail
-  simp only [decide_eq_true_eq, beq_iff_eq, bne_iff_ne]
+      (match Consensus.tickMultiplier (Consensus.wrap64 (cE.toInt - cS.toInt)) (Consensus.wrap64 (bE.toInt - bS.toInt)) with
+       | none => .panic
+       | some none => .ok (0#64, some "errorf")
+       | some (some m) => .ok (BitVec.ofInt 64 m, none)) := by
+  unfold Translated.TickMultiplier_tail Consensus.tickMultiplier
+  simp only [consensus_wrap64_eq, ← toInt_sub_wrap]
+  generalize cE - cS = c
+  generalize bE - bS = b
+  have h0 : (c == 0#64) = true ↔ c.toInt = 0 := by
+    simp only [beq_iff_eq, ← BitVec.toInt_inj]; rfl
+  have h1 : (BitVec.srem b c != 0#64) = true ↔ Int.tmod b.toInt c.toInt ≠ 0 := by
+    simp only [bne_iff_ne, ne_eq, ← BitVec.toInt_inj, BitVec.toInt_srem]; rfl
+  simp only [h0, h1, decide_eq_true_eq, ← toInt_sdiv_wrap]
   (repeat' split) <;> simp_all
+  rename_i heq; rw [← heq, BitVec.ofInt_toInt]
+/-! ### round 6 — loops and tables -/
+
+/-- C12: `pow.greaterDifficulty` (loop from byte 7 down to byte 0) on two 8-byte slices = the hand model -/
+theorem greaterDifficulty_translation_refines_model (x y : List Nat) (hx : x.length = 8) (hy : y.length = 8) :
+    Translated.greaterDifficulty x y = .ok (Pow.greaterDifficulty x y) := by
+  have hidx : Go.downS 7#64 18446744073709551615#64 = [7#64, 6#64, 5#64, 4#64, 3#64, 2#64, 1#64, 0#64] := by decide
+  match x, hx with
+  | [a0, a1, a2, a3, a4, a5, a6, a7], _ =>
+  match y, hy with
+  | [b0, b1, b2, b3, b4, b5, b6, b7], _ =>
+  unfold Translated.greaterDifficulty
+  rw [hidx]
+  simp only [Go.forIn, Go.oobS, Go.atB, Go.loopThen, Pow.greaterDifficulty, Pow.geMSB, List.reverse_cons, List.reverse_nil,
+    List.nil_append, List.cons_append, List.length_cons, List.length_nil]
+  have t7 : (7#64).toNat = 7 := by decide
+  have t6 : (6#64).toNat = 6 := by decide
+  have t5 : (5#64).toNat = 5 := by decide
+  have t4 : (4#64).toNat = 4 := by decide
+  have t3 : (3#64).toNat = 3 := by decide
+  have t2 : (2#64).toNat = 2 := by decide
+  have t1 : (1#64).toNat = 1 := by decide
+  have t0 : (0#64).toNat = 0 := by decide
+  have i7 : (7#64).toInt = 7 := by decide
+  have i6 : (6#64).toInt = 6 := by decide
+  have i5 : (5#64).toInt = 5 := by decide
+  have i4 : (4#64).toInt = 4 := by decide
+  have i3 : (3#64).toInt = 3 := by decide
+  have i2 : (2#64).toInt = 2 := by decide
+  have i1 : (1#64).toInt = 1 := by decide
+  have i0 : (0#64).toInt = 0 := by decide
+  simp only [t7, t6, t5, t4, t3, t2, t1, t0, i7, i6, i5, i4, i3, i2, i1, i0, List.getD_cons_succ, List.getD_cons_zero,
+    Nat.reduceAdd, Nat.reduceLeDiff, Int.reduceLT, decide_false, Bool.or_self, Bool.false_eq_true, if_false, decide_eq_true_eq,
+    beq_iff_eq, gt_iff_lt, ite_self]
+  by_cases h7 : b7 < a7
+  · simp [h7]
+  by_cases g7 : a7 < b7
+  · simp [h7, g7]
+  by_cases h6 : b6 < a6
+  · simp [h7, g7, h6]
+  by_cases g6 : a6 < b6
+  · simp [h7, g7, h6, g6]
+  by_cases h5 : b5 < a5
+  · simp [h7, g7, h6, g6, h5]
+  by_cases g5 : a5 < b5
+  · simp [h7, g7, h6, g6, h5, g5]
+  by_cases h4 : b4 < a4
+  · simp [h7, g7, h6, g6, h5, g5, h4]
+  by_cases g4 : a4 < b4
+  · simp [h7, g7, h6, g6, h5, g5, h4, g4]
+  by_cases h3 : b3 < a3
+  · simp [h7, g7, h6, g6, h5, g5, h4, g4, h3]
+  by_cases g3 : a3 < b3
+  · simp [h7, g7, h6, g6, h5, g5, h4, g4, h3, g3]
+  by_cases h2 : b2 < a2
+  · simp [h7, g7, h6, g6, h5, g5, h4, g4, h3, g3, h2]
+  by_cases g2 : a2 < b2
+  · simp [h7, g7, h6, g6, h5, g5, h4, g4, h3, g3, h2, g2]
+  by_cases h1 : b1 < a1
+  · simp [h7, g7, h6, g6, h5, g5, h4, g4, h3, g3, h2, g2, h1]
+  by_cases g1 : a1 < b1
+  · simp [h7, g7, h6, g6, h5, g5, h4, g4, h3, g3, h2, g2, h1, g1]
+  by_cases h0 : b0 < a0
+  · simp [h7, g7, h6, g6, h5, g5, h4, g4, h3, g3, h2, g2, h1, g1, h0]
+  by_cases g0 : a0 < b0
+  · simp [h7, g7, h6, g6, h5, g5, h4, g4, h3, g3, h2, g2, h1, g1, h0, g0]
+  simp [h7, g7, h6, g6, h5, g5, h4, g4, h3, g3, h2, g2, h1, g1, h0, g0]
+
+example : Translated.greaterDifficulty [0,0,0,0,0,0,0,1] [255,255,255,255,255,255,255,0] = .ok true := by decide
+
+/-- …and it panics (index out of range) when a slice is shorter than 8 bytes -/
+theorem greaterDifficulty_short_panics (x y : List Nat) (h : x.length < 8 ∨ y.length < 8) :
+    Translated.greaterDifficulty x y = .panic := by
+  have hidx : Go.downS 7#64 18446744073709551615#64 = [7#64, 6#64, 5#64, 4#64, 3#64, 2#64, 1#64, 0#64] := by decide
+  have t7 : (7#64).toNat = 7 := by decide
+  have i7 : (7#64).toInt = 7 := by decide
+  unfold Translated.greaterDifficulty
+  rw [hidx]
+  have hb : (Go.oobS x 7#64 || Go.oobS y 7#64) = true := by
+    simp only [Go.oobS, t7, i7, Bool.or_eq_true, decide_eq_true_eq]; omega
+  simp only [Go.forIn, hb, if_true, Go.loopThen]
+
+/-- embedding of the reward model's answer (`none` = run-time panic) -/
+def rewardEmb : Option Int → Res (BitVec 64)
+  | none => .panic
+  | some v => .ok (BitVec.ofInt 64 v)
+
+theorem NetworkZnnRewardPerEpoch_translation_refines_model (e : BitVec 64) :
+    Translated.NetworkZnnRewardPerEpoch e = rewardEmb (Rewards.networkZnnRewardPerEpoch e.toNat) := by
+  have hlen : Go.len Translated.vm_constants_NetworkZnnRewardConfig_init = 11#64 := by decide
+  have hlast : Go.oobS Translated.vm_constants_NetworkZnnRewardConfig_init (11#64 - 1#64) = false := by decide
+  have hL : (Gen.NetworkZnnRewardConfig.getLast?).map (BitVec.ofInt 64)
+      = some (Go.atW Translated.vm_constants_NetworkZnnRewardConfig_init (11#64 - 1#64)) := by decide
+  have hI : ∀ t, t < 11 → (Gen.NetworkZnnRewardConfig[t]?).map (BitVec.ofInt 64)
+      = some (Translated.vm_constants_NetworkZnnRewardConfig_init.getD t 0#64) := by decide
+  have hT : Translated.vm_constants_NetworkZnnRewardConfig_init.length = 11 := by decide
+  have hG : Gen.NetworkZnnRewardConfig.length = 11 := by decide
+  have hD : Translated.vm_constants_RewardTickDurationInEpochs_init = 30#64 := by decide
+  have he := e.isLt
+  unfold Translated.NetworkZnnRewardPerEpoch Rewards.networkZnnRewardPerEpoch Rewards.networkRewardPerEpoch
+  simp only [hlen, hlast, hD, hG, Gen.RewardTickDurationInEpochs, two64, two63]
+  have hq : (e / 30#64).toNat = e.toNat / 30 := by simp [BitVec.toNat_udiv]
+  have hqi : (e / 30#64).toInt = ((e.toNat / 30 : Nat) : Int) := by rw [toInt_eq, hq]; split <;> omega
+  have h11 : (11#64).toInt = 11 := by decide
+  have hm : e.toNat % 18446744073709551616 = e.toNat := Nat.mod_eq_of_lt he
+  simp only [hqi, h11, hm]
+  have hsmall : ¬ (e.toNat / 30 ≥ 9223372036854775808) := by omega
+  have h30 : (30#64 == 0#64) = false := by decide
+  simp only [hsmall, if_false, h30, Bool.false_eq_true, decide_eq_true_eq, Int.toNat_natCast, Nat.reduceEqDiff]
+  by_cases hge : ((e.toNat / 30 : Nat) : Int) ≥ 11
+  · have hge' : ((e.toNat / 30 : Nat) : Int) ≥ ((11 : Nat) : Int) := hge
+    simp only [hge, hge', if_true]
+    have := hL
+    cases hh : Gen.NetworkZnnRewardConfig.getLast? with
+    | none => rw [hh] at this; simp at this
+    | some v => rw [hh] at this; simp only [Option.map_some, Option.some.injEq] at this; simp only [rewardEmb, this]
+  · have hge' : ¬ ((e.toNat / 30 : Nat) : Int) ≥ ((11 : Nat) : Int) := hge
+    have hneg : ¬ ((e.toNat / 30 : Nat) : Int) < 0 := by omega
+    have hlt : e.toNat / 30 < 11 := by omega
+    have hoob : Go.oobS Translated.vm_constants_NetworkZnnRewardConfig_init (e / 30#64) = false := by
+      simp only [Go.oobS, hqi, hq, hT, Bool.or_eq_false_iff, decide_eq_false_iff_not]; omega
+    simp only [hge, hge', hneg, if_false, hoob, Bool.false_eq_true, Go.atW, hq]
+    have := hI _ hlt
+    cases hh : Gen.NetworkZnnRewardConfig[e.toNat / 30]? with
+    | none => rw [hh] at this; simp at this
+    | some v => rw [hh] at this; simp only [Option.map_some, Option.some.injEq] at this; simp only [rewardEmb, this]
+
+theorem NetworkQsrRewardPerEpoch_translation_refines_model (e : BitVec 64) :
+    Translated.NetworkQsrRewardPerEpoch e = rewardEmb (Rewards.networkQsrRewardPerEpoch e.toNat) := by
+  have hlen : Go.len Translated.vm_constants_NetworkQsrRewardConfig_init = 8#64 := by decide
+  have hlast : Go.oobS Translated.vm_constants_NetworkQsrRewardConfig_init (8#64 - 1#64) = false := by decide
+  have hL : (Gen.NetworkQsrRewardConfig.getLast?).map (BitVec.ofInt 64)
+      = some (Go.atW Translated.vm_constants_NetworkQsrRewardConfig_init (8#64 - 1#64)) := by decide
+  have hI : ∀ t, t < 8 → (Gen.NetworkQsrRewardConfig[t]?).map (BitVec.ofInt 64)
+      = some (Translated.vm_constants_NetworkQsrRewardConfig_init.getD t 0#64) := by decide
+  have hT : Translated.vm_constants_NetworkQsrRewardConfig_init.length = 8 := by decide
+  have hG : Gen.NetworkQsrRewardConfig.length = 8 := by decide
+  have hD : Translated.vm_constants_RewardTickDurationInEpochs_init = 30#64 := by decide
+  have he := e.isLt
+  unfold Translated.NetworkQsrRewardPerEpoch Rewards.networkQsrRewardPerEpoch Rewards.networkRewardPerEpoch
+  simp only [hlen, hlast, hD, hG, Gen.RewardTickDurationInEpochs, two64, two63]
+  have hq : (e / 30#64).toNat = e.toNat / 30 := by simp [BitVec.toNat_udiv]
+  have hqi : (e / 30#64).toInt = ((e.toNat / 30 : Nat) : Int) := by rw [toInt_eq, hq]; split <;> omega
+  have h8 : (8#64).toInt = 8 := by decide
+  have hm : e.toNat % 18446744073709551616 = e.toNat := Nat.mod_eq_of_lt he
+  simp only [hqi, h8, hm]
+  have hsmall : ¬ (e.toNat / 30 ≥ 9223372036854775808) := by omega
+  have h30 : (30#64 == 0#64) = false := by decide
+  simp only [hsmall, if_false, h30, Bool.false_eq_true, decide_eq_true_eq, Int.toNat_natCast, Nat.reduceEqDiff]
+  by_cases hge : ((e.toNat / 30 : Nat) : Int) ≥ 8
+  · have hge' : ((e.toNat / 30 : Nat) : Int) ≥ ((8 : Nat) : Int) := hge
+    simp only [hge, hge', if_true]
+    have := hL
+    cases hh : Gen.NetworkQsrRewardConfig.getLast? with
+    | none => rw [hh] at this; simp at this
+    | some v => rw [hh] at this; simp only [Option.map_some, Option.some.injEq] at this; simp only [rewardEmb, this]
+  · have hge' : ¬ ((e.toNat / 30 : Nat) : Int) ≥ ((8 : Nat) : Int) := hge
+    have hneg : ¬ ((e.toNat / 30 : Nat) : Int) < 0 := by omega
+    have hlt : e.toNat / 30 < 8 := by omega
+    have hoob : Go.oobS Translated.vm_constants_NetworkQsrRewardConfig_init (e / 30#64) = false := by
+      simp only [Go.oobS, hqi, hq, hT, Bool.or_eq_false_iff, decide_eq_false_iff_not]; omega
+    simp only [hge, hge', hneg, if_false, hoob, Bool.false_eq_true, Go.atW, hq]
+    have := hI _ hlt
+    cases hh : Gen.NetworkQsrRewardConfig[e.toNat / 30]? with
+    | none => rw [hh] at this; simp at this
+    | some v => rw [hh] at this; simp only [Option.map_some, Option.some.injEq] at this; simp only [rewardEmb, this]
+
+/-! ### C11 — the epoch cursor -/
+
+theorem epochUpdate_nextEpoch_translation_refines_model (last : BitVec 64) :
+    (Translated.epochUpdate_nextEpoch last).toInt = Rewards.wrap64 (last.toInt + 1) ∧
+    Translated.epochUpdate_advance last = .ok (Translated.epochUpdate_nextEpoch last) := by
+  have h1 : (1#64).toInt = 1 := by decide
+  exact ⟨by unfold Translated.epochUpdate_nextEpoch; rw [toInt_add_wrap, h1], rfl⟩
+
+/-- the test of `CanPerformEpochUpdate` is `EpochCursor.tooRecent` when `epochEnd` is the end of epoch `cursor + 1` and the
+    int64 sum `end + RewardTimeLimit` does not overflow -/
+theorem epochUpdate_tooRecent_translation_refines_model (c : EpochCursor.Cfg) (cursor : Int) (ts e : BitVec 64)
+    (hr : c.rtl = Gen.RewardTimeLimit) (he : e.toInt = EpochCursor.epochEnd c (cursor + 1))
+    (hno : e.toInt + Gen.RewardTimeLimit < (two63 : Int)) :
+    Translated.epochUpdate_tooRecent ts e = if EpochCursor.tooRecent c cursor ts.toInt then .exit 0 else .ok () := by
+  unfold Translated.epochUpdate_tooRecent EpochCursor.tooRecent
+  have hR : (Translated.vm_constants_RewardTimeLimit_init).toInt = Gen.RewardTimeLimit := by decide
+  have hlo : -(9223372036854775808 : Int) ≤ e.toInt := by have := e.isLt; rw [toInt_eq]; split <;> omega
+  rw [toInt_add_wrap, hR, hr, ← he]
+  have : Rewards.wrap64 (e.toInt + Gen.RewardTimeLimit) = e.toInt + Gen.RewardTimeLimit := by
+    unfold Rewards.wrap64; simp only [two63, two64, Gen.RewardTimeLimit] at *; omega
+  rw [this]
+
+/-! ### C12 — base cost of a plain send, the three inequalities of `enoughPlasma` -/
+
+theorem basePlasma_plainSend_translation_refines_model (d : BitVec 64) (hd : d.toNat < two63) :
+    Translated.basePlasma_plainSend d = (match Pow.basePlasmaChecked false none d.toNat with
+      | none => (0#64, some "ErrABDataTooBig")
+      | some v => (BitVec.ofNat 64 v, none)) := by
+  unfold Translated.basePlasma_plainSend Pow.basePlasmaChecked Pow.basePlasma
+  simp only [two63] at hd
+  have hi : d.toInt = (d.toNat : Int) := by rw [toInt_eq]; split <;> omega
+  have h16 : (16384#64).toInt = 16384 := by decide
+  simp only [hi, h16, Gen.MaxDataLength, Gen.ABByteDataPlasma, Gen.AccountBlockBasePlasma, decide_eq_true_eq, Bool.false_eq_true, if_false]
+  by_cases h : (d.toNat : Int) > 16384
+  · have h' : d.toNat > 16384 := by omega
+    simp only [h, h', if_true]
+  · have h' : ¬ d.toNat > 16384 := by omega
+    simp only [h, h', if_false]
+    have e1 : (d * 68#64 + 21000#64).toNat = d.toNat * 68 + 21000 := by bv_omega
+    have e2 : (BitVec.ofNat 64 (d.toNat * 68 + 21000)).toNat = d.toNat * 68 + 21000 := by
+      rw [BitVec.toNat_ofNat]; omega
+    have e3 : d * 68#64 + 21000#64 = BitVec.ofNat 64 (d.toNat * 68 + 21000) := BitVec.eq_of_toNat_eq (by rw [e1, e2])
+    rw [e3]
+
+/-- the three fragments of `vm.enoughPlasma`, run one after the other, are `Pow.enoughPlasma` once `AvailablePlasma` answered -/
+theorem enoughPlasma_translation_refines_model (q : Int) (cm uc : Nat) (avail fused diff base : BitVec 64) (junk : BitVec 64)
+    (ha : Pow.availablePlasma q cm uc = some avail.toNat) :
+    (match Translated.enoughPlasma_fused avail fused with
+     | .ok () => (match Translated.enoughPlasma_total diff fused junk with
+        | .ok total => (match Translated.enoughPlasma_base total base with
+            | .ok () => Pow.PlasmaVerdict.ok total.toNat
+            | _ => .notEnoughTotal)
+        | _ => .limitReached)
+     | _ => .notEnoughPlasma) = Pow.enoughPlasma q cm uc fused.toNat diff.toNat base.toNat := by
+  obtain ⟨T, hTd⟩ : ∃ T, T = Translated.DifficultyToPlasma diff + fused := ⟨_, rfl⟩
+  have hT : T.toNat = (Pow.difficultyToPlasma diff.toNat + fused.toNat) % two64 := by
+    rw [hTd, BitVec.toNat_add, DifficultyToPlasma_translation_refines_model]; rfl
+  have htot : Translated.enoughPlasma_total diff fused junk = if 10500000 < T.toNat then .exit 0 else .ok T := by
+    unfold Translated.enoughPlasma_total
+    simp only [← hTd, BitVec.lt_def, gt_iff_lt, decide_eq_true_eq]; rfl
+  rw [htot]
+  unfold Pow.enoughPlasma Translated.enoughPlasma_fused Translated.enoughPlasma_base
+  rw [ha]
+  simp only [BitVec.lt_def, gt_iff_lt, decide_eq_true_eq, ← hT, Gen.MaxPlasmaForAccountBlock]
+  by_cases h1 : avail.toNat < fused.toNat
+  · simp [h1]
+  · by_cases h2 : 10500000 < T.toNat
+    · simp [h1, h2]
+    · by_cases h3 : T.toNat < base.toNat
+      · simp [h1, h2, h3]
+      · simp [h1, h2, h3]
+
+/-! ### C05 / C03 — comparisons of the verifiers -/
+
+theorem momentum_timestamp_translation_refines_model (ts prevTs tsU : BitVec 64) :
+    Translated.momentum_timestampMissing ts = (if ts.toInt = 0 then .exit 0 else .ok ()) ∧
+    Translated.momentum_timestampNotIncreasing prevTs tsU = (if prevTs.toNat ≥ tsU.toNat then .exit 0 else .ok ()) := by
+  unfold Translated.momentum_timestampMissing Translated.momentum_timestampNotIncreasing
+  have h0 : (ts == 0#64) = true ↔ ts.toInt = 0 := by simp only [beq_iff_eq, ← BitVec.toInt_inj]; rfl
+  simp only [h0, BitVec.le_def, ge_iff_le, decide_eq_true_eq, and_self]
+
+theorem accountBlock_heightChecks_translation_refines_model (b : Verify.Blk) (hh : b.h < two64) :
+    Translated.accountBlock_heightChecks (BitVec.ofNat 64 b.h) b.phz
+      = (match Verify.firstErr (Verify.heightChecks b) with
+         | .error .abMHeightMissing => .exit 0
+         | .error .abPrevHashMustBeZero => .exit 1
+         | .error .abPrevHashMissing => .exit 2
+         | _ => .ok ()) := by
+  unfold Translated.accountBlock_heightChecks Verify.heightChecks
+  have e0 : (BitVec.ofNat 64 b.h == 0#64) = (b.h == 0) := by
+    simp only [two64] at hh; rw [Bool.eq_iff_iff]; simp only [beq_iff_eq, ← BitVec.toNat_inj, BitVec.toNat_ofNat]; omega
+  have e1 : (BitVec.ofNat 64 b.h == 1#64) = (b.h == 1) := by
+    simp only [two64] at hh; rw [Bool.eq_iff_iff]; simp only [beq_iff_eq, ← BitVec.toNat_inj, BitVec.toNat_ofNat]; omega
+  have e2 : (BitVec.ofNat 64 b.h != 1#64) = (b.h != 1) := by simp only [bne, e1]
+  rw [e0, e1, e2]
+  cases h0 : (b.h == 0) <;> cases h1 : (b.h == 1) <;> cases hz : b.phz <;>
+    simp_all [Verify.firstErr, Verify.chk, bne]
+
+theorem insertChain_window_translation_refines_model (fr tg tl : BitVec 64) :
+    Translated.insertChain_window fr tg tl =
+      (if Proto.sub64 fr.toNat tg.toNat > Gen.InsertChainWindow then .exit 0
+       else if tl.toNat ≤ fr.toNat then .exit 1 else .ok ()) ∧
+    (∀ h : BitVec 64, (Translated.insertChain_targetHeight h).toNat = Sync.pred64 h.toNat) := by
+  constructor
+  · unfold Translated.insertChain_window Proto.sub64
+    have hs : (fr - tg).toNat = if tg.toNat ≤ fr.toNat then fr.toNat - tg.toNat else two64 - (tg.toNat - fr.toNat) := by
+      simp only [two64]; split <;> bv_omega
+    simp only [BitVec.lt_def, BitVec.le_def, gt_iff_lt, decide_eq_true_eq, hs, Gen.InsertChainWindow, BitVec.toNat_ofNat]
+  · intro h; unfold Translated.insertChain_targetHeight Sync.pred64; simp only [two64]; split <;> bv_omega
+
+/-- the two amount bounds of `accountBlockVerifier.amounts` (`Sign() == -1`, `BitLen() > 255`) for a non-nil amount whose
+    bit length fits an `int` (it always does in a running process) -/
+theorem accountBlock_amountBounds_translation_refines_model (a : Int) (hfit : Nat.log2 a.natAbs + 1 < two63) :
+    Translated.accountBlock_amountBounds a
+      = if a < 0 then .exit 0 else if Verify.amountTooBig a then .exit 1 else .ok () := by
+  unfold Translated.accountBlock_amountBounds Verify.amountTooBig
+  have hs : (Go.bigSign a == 18446744073709551615#64) = decide (a < 0) := by
+    unfold Go.bigSign Go.bigCmp
+    by_cases h1 : a < 0
+    · simp [h1]
+    · by_cases h2 : a = 0
+      · simp [h2]
+      · simp [h1, h2]
+  have h255 : (255#64).toInt = 255 := by decide
+  have hb : (Go.bigBitLen a).toInt > 255 ↔ a.natAbs ≥ 2 ^ 255 := by
+    unfold Go.bigBitLen
+    simp only [two63] at hfit
+    by_cases h0 : a = 0
+    · subst h0; simp
+    · have hn : a.natAbs ≠ 0 := by omega
+      have hl := Nat.log2_lt (n := a.natAbs) (k := 255) hn
+      simp only [h0, if_false]
+      rw [toInt_eq]
+      simp only [BitVec.toNat_ofNat]
+      have : (Nat.log2 a.natAbs + 1) % 2 ^ 64 = Nat.log2 a.natAbs + 1 := by omega
+      rw [this]
+      split <;> omega
+  simp [hs, h255, hb, Gen.AmountMaxBitLen]
+
+/-- shape of a page-size guard with bound `m`: `if pageSize > m { return … }` -/
+def guardSpec (m : BitVec 32) : BitVec 32 → Res Unit := fun c => if decide (c > m) then .exit 0 else .ok ()
+
+/-- C18: EVERY paged getter of rpc/api and rpc/api/embedded (27 functions with a `pageSize uint32` parameter) contains a
+    guard `if pageSize > m { return … }` with `m ≤ RpcMaxPageSize` (`m = RpcMaxPageSize`, or the stricter
+    `unreceivedMaxPageSize = 50` of `GetUnreceivedBlocksByAddress`): whatever passes it is at most `RpcMaxPageSize` -/
+theorem pageGuards_translation_refines_model :
+    Translated.unguardedPagedGetters = [] ∧
+    ∀ g ∈ Translated.pageGuards, ∃ m : BitVec 32, m.toNat ≤ Gen.RpcMaxPageSize ∧
+      ∀ c : BitVec 32, g.2 c = if c.toNat > m.toNat then .exit 0 else .ok () := by
+  refine ⟨by decide, ?_⟩
+  have key : ∀ m c : BitVec 32, guardSpec m c = if c.toNat > m.toNat then .exit 0 else .ok () := by
+    intro m c; unfold guardSpec
+    simp only [BitVec.lt_def, gt_iff_lt, decide_eq_true_eq]
+  have all : ∀ g ∈ Translated.pageGuards, g.2 = guardSpec 1024#32 ∨ g.2 = guardSpec 50#32 := by
+    simp only [Translated.pageGuards, List.forall_mem_cons]
+    repeat (refine ⟨by first | exact Or.inl rfl | exact Or.inr rfl, ?_⟩)
+    intro g hg; cases hg
+  intro g hg
+  rcases all g hg with h | h
+  · exact ⟨1024#32, by decide, fun c => by rw [h]; exact key _ c⟩
+  · exact ⟨50#32, by decide, fun c => by rw [h]; exact key _ c⟩
+
+example : Translated.pageGuards.length = 27 := by decide
+
+example : ∃ (q : Int) (cm uc : Nat) (avail : BitVec 64), Pow.availablePlasma q cm uc = some avail.toNat :=
+  ⟨0, 5, 0, 5#64, by decide⟩
+
+example : ∃ a : Int, Nat.log2 a.natAbs + 1 < two63 ∧ Translated.accountBlock_amountBounds a = .exit 1 :=
+  ⟨2 ^ 255, by decide, by decide⟩
+
+/-- C05: `electionAlgorithm.findSeed` = `int64(height)` -/
+theorem findSeed_translation_refines_model (h : BitVec 64) :
+    (Translated.findSeed h).toInt = Consensus.findSeed h.toNat := by
+  unfold Translated.findSeed Consensus.findSeed; rw [toInt64_toNat]
+
+example : ∃ (c : EpochCursor.Cfg) (cursor : Int) (e : BitVec 64), c.rtl = Gen.RewardTimeLimit ∧
+    e.toInt = EpochCursor.epochEnd c (cursor + 1) ∧ e.toInt + Gen.RewardTimeLimit < (two63 : Int) :=
+  ⟨{ genesis := 0, epochSec := 86400, rtl := 3600, updMin := 0, maxBlocks := 0, epochSec_pos := by decide }, 0, 172800#64,
+    by decide⟩
+
+/-- C14: `accountPool.filterBlocksToCommit` on the list of block types (the slice of block pointers projected to the one
+    field the function reads) is the hand model's loop `Pool.filterGo` -/
+theorem filterBlocksToCommit_translation_refines_model (blocks : List (BitVec 64)) (hl : blocks.length < two63) :
+    Translated.filterBlocksToCommit blocks
+      = .ok (Pool.filterGo (fun b : BitVec 64 => Pool.isContractSend b.toNat) Gen.MaxAccountBlocksInMomentum blocks [] []) := by
+  simp only [two63] at hl
+  have hl' : blocks.length < 2 ^ 63 := by omega
+  have hlen : (Go.len blocks).toInt = (blocks.length : Int) := by
+    unfold Go.len; rw [toInt_eq, BitVec.toNat_ofNat]
+    have : blocks.length % 2 ^ 64 = blocks.length := Nat.mod_eq_of_lt (by omega)
+    rw [this]; split <;> omega
+  have hM : Translated.chain_MaxAccountBlocksInMomentum_init.toInt = (Gen.MaxAccountBlocksInMomentum : Int) := by decide
+  unfold Translated.filterBlocksToCommit
+  have g1 : decide ((Go.len blocks).toInt < 0) = false := by rw [hlen]; simp
+  have g2 : decide (Translated.chain_MaxAccountBlocksInMomentum_init.toInt < 0) = false := by decide
+  simp only [g1, g2, Bool.false_eq_true, if_false]
+  rw [upS_len_eq blocks hl']
+  have key : ∀ body : BitVec 64 → LL → Step LL (List (BitVec 64)),
+      (∀ (k : Nat) (b : BitVec 64) (batch tc : List (BitVec 64)), blocks[k]? = some b → batch.length + tc.length ≤ k →
+        body (0#64 + BitVec.ofNat 64 k) (batch, tc) =
+          if (fun b : BitVec 64 => Pool.isContractSend b.toNat) b then .next (batch ++ [b], tc)
+          else if tc.length + (batch ++ [b]).length > Gen.MaxAccountBlocksInMomentum then .brk (batch ++ [b], tc)
+          else .next ([], tc ++ (batch ++ [b]))) →
+      loopThen (Go.forIn (idxFrom 0 blocks.length) ([], []) body) (fun s__ => Res.ok s__.snd)
+        = .ok (Pool.filterGo (fun b : BitVec 64 => Pool.isContractSend b.toNat) Gen.MaxAccountBlocksInMomentum blocks [] []) := by
+    intro body hb
+    obtain ⟨b', h | h⟩ := filterLoop_spec _ _ blocks body hb blocks [] [] [] (by simp) (by simp) <;>
+      (simp only [List.length_nil] at h; rw [h]; rfl)
+  apply key
+  intro k b batch tc hk hinv
+  have hkl : k < blocks.length := by
+    rcases Nat.lt_or_ge k blocks.length with h | h
+    · exact h
+    · rw [List.getElem?_eq_none h] at hk; cases hk
+  have hi : (0#64 + BitVec.ofNat 64 k).toNat = k := by
+    simp only [BitVec.zero_add, BitVec.toNat_ofNat]; exact Nat.mod_eq_of_lt (by omega)
+  have hii : (0#64 + BitVec.ofNat 64 k).toInt = (k : Int) := by rw [toInt_eq, hi]; split <;> omega
+  have hoob : oobS blocks (0#64 + BitVec.ofNat 64 k) = false := by
+    simp only [oobS, hi, hii, Bool.or_eq_false_iff, decide_eq_false_iff_not]; omega
+  have hat : atW blocks (0#64 + BitVec.ofNat 64 k) = b := by
+    simp only [atW, hi, List.getD, hk, Option.getD_some]
+  have hsum : (Go.len tc + Go.len (batch ++ [b])).toInt = ((tc.length + (batch ++ [b]).length : Nat) : Int) := by
+    have hle : tc.length + (batch ++ [b]).length < 2 ^ 63 := by simp; omega
+    have hn : (Go.len tc + Go.len (batch ++ [b])).toNat = tc.length + (batch ++ [b]).length := by
+      simp only [Go.len, BitVec.toNat_add, BitVec.toNat_ofNat]; omega
+    rw [toInt_eq, hn]; split <;> omega
+  have hcs : (b != 4#64) = !(Pool.isContractSend b.toNat) := by
+    unfold Pool.isContractSend
+    simp only [Gen.BlockTypeContractSend, bne, Bool.not_eq_eq_eq_not, Bool.not_not]
+    rw [Bool.eq_iff_iff]; simp only [beq_iff_eq, ← BitVec.toNat_inj]; rfl
+  have hcs2 : (b == 4#64) = Pool.isContractSend b.toNat := by
+    rw [← Bool.not_not (b == 4#64)]; exact (congrArg (!·) hcs).trans (Bool.not_not _)
+  have hgt : ∀ n : Nat, ((n : Int) > (Gen.MaxAccountBlocksInMomentum : Int)) ↔ n > Gen.MaxAccountBlocksInMomentum := by
+    intro n; omega
+  simp only [hoob, hat, hsum, hM, hcs, hcs2, hgt, Bool.false_eq_true, if_false, decide_eq_true_eq]
+  all_goals (by_cases h1 : Pool.isContractSend b.toNat = true <;>
+    by_cases h2 : tc.length + (batch ++ [b]).length > Gen.MaxAccountBlocksInMomentum <;> simp [h1, h2])
+
+example : Translated.filterBlocksToCommit [2#64, 4#64, 4#64, 3#64, 4#64] = .ok [2#64, 4#64, 4#64, 3#64] := by decide
 
 end ZV.Translated
